@@ -206,8 +206,17 @@ func (mbox *Mailbox) flagsLocked() []imap.Flag {
 func (mbox *Mailbox) Expunge(w *imapserver.ExpungeWriter, uids *imap.UIDSet) error {
 	expunged := make(map[*message]struct{})
 	mbox.mutex.Lock()
+	var staticUIDs imap.UIDSet
+	if uids != nil {
+		// "*" stands for the largest UID, like in the other UID commands
+		max := uint32(mbox.uidNext) - 1
+		for _, r := range *uids {
+			staticNumRange((*uint32)(&r.Start), (*uint32)(&r.Stop), max)
+			staticUIDs.AddRange(r.Start, r.Stop)
+		}
+	}
 	for _, msg := range mbox.l {
-		if uids != nil && !uids.Contains(msg.uid) {
+		if uids != nil && !staticUIDs.Contains(msg.uid) {
 			continue
 		}
 		if _, ok := msg.flags[canonicalFlag(imap.FlagDeleted)]; ok {
